@@ -140,12 +140,14 @@ def _value(rng, kind, nodes, class_nodes=None):
         return lit("2020-01-0%d" % rng.randrange(1, 9), XSD + "date")
     if kind == "iri":   # an IRI that is not an instance of anything
         return iri(EX + "ext%d" % rng.randrange(6))
+    if kind == "iri2":  # IRIs with another scheme than http(s)
+        return iri(rng.choice(["urn:ex:u%d", "mailto:u%d@ex.org"]) % rng.randrange(4))
     raise ValueError(kind)
 
 
 def gen_graph(rng, n_nodes=8, n_classes=3, n_props=4, bnodes=False,
               kinds=("node", "str", "int", "lang", "date", "iri"),
-              prop_namespaces=(EX,), multi_class=True, density=0.6):
+              prop_namespaces=(EX,), multi_class=True, density=0.6, twins=0.06, meta=0.12):
     """A general graph: nodes with 0..2 classes, each (node, prop) present with
     probability `density`, 1..3 values of one randomly chosen kind."""
     classes = [EX + "C%d" % i for i in range(n_classes)]
@@ -175,6 +177,19 @@ def gen_graph(rng, n_nodes=8, n_classes=3, n_props=4, bnodes=False,
                     # mostly one kind per (node, property), sometimes mixed kinds
                     k2 = kind if rng.random() < 0.8 else rng.choice(kinds)
                     triples.add((n, iri(p), _value(rng, k2, nodes)))
+                if "int" in kinds and "str" in kinds and rng.random() < twins:
+                    # two objects with the same characters and a different nature
+                    lex = str(rng.randrange(100))
+                    triples.add((n, iri(p), lit(lex, XSD + "integer")))
+                    triples.add((n, iri(p), lit(lex, XSD + "string")))
+    if rng.random() < meta and props and not bnodes:
+        # metaclass-style data: a class that is itself typed and is the object of ordinary properties
+        # (not together with blank nodes: with inverse paths the value set of '^ rdf:type' then lists blank-node
+        #  labels, which no relabelling or channel can keep stable - outside what C08/C09 state)
+        c = rng.choice(classes)
+        triples.add((iri(c), iri(RDF_TYPE), iri(EX + "Meta")))
+        for _ in range(rng.randint(1, 2)):
+            triples.add((rng.choice(nodes), iri(rng.choice(props)), iri(c)))
     return sorted(triples, key=repr)
 
 
@@ -207,6 +222,17 @@ def gen_schema_graph(rng, n_nodes=8, n_classes=2, n_props=3, bnodes=False,
                 if kind == "node":
                     card = min(card, len(members[tgt]))
                 schema[c][p] = (kind, tgt, card)
+    # node-valued properties point to members of one class *of one node kind* (IRI members if there are any),
+    # otherwise IRI/BNode alternatives with different cardinalities would tie
+    link_targets = {}
+    for c in classes:
+        iris = [m for m in members[c] if m[0] == "i"]
+        link_targets[c] = iris if iris else members[c]
+    for c in classes:
+        for p in list(schema[c]):
+            kind, tgt, card = schema[c][p]
+            if kind == "node":
+                schema[c][p] = (kind, tgt, min(card, len(link_targets[tgt])))
     triples = set()
     for c in classes:
         for n in members[c]:
@@ -217,14 +243,14 @@ def gen_schema_graph(rng, n_nodes=8, n_classes=2, n_props=3, bnodes=False,
                 while len(vals) < card and guard < 50:
                     guard += 1
                     if kind == "node":
-                        vals.add(rng.choice(members[tgt]))
+                        vals.add(rng.choice(link_targets[tgt]))
                     else:
                         vals.add(_value(rng, kind, nodes))
                 # literal kinds: make sure exactly `card` distinct values
                 j = 0
                 while len(vals) < card:
                     j += 1
-                    vals.add(lit("z%d" % j, XSD + "string") if kind != "node" else members[tgt][j % len(members[tgt])])
+                    vals.add(lit("z%d" % j, XSD + "string") if kind != "node" else link_targets[tgt][j % len(link_targets[tgt])])
                 for v in vals:
                     triples.add((n, iri(p), v))
     return sorted(triples, key=repr)
@@ -348,7 +374,7 @@ def _prefix_table(triples):
         for t in (s, p, o):
             if t[0] == "i":
                 ns, _ = _split_iri(t[1])
-                if ns not in nss:
+                if ns and ns not in nss:
                     nss.append(ns)
             elif t[0] == "l" and t[2]:
                 ns, _ = _split_iri(t[2])
@@ -378,7 +404,7 @@ def to_turtle(triples, group=True, use_a=True, dialect="standard"):
             if pred and use_a and t[1] == RDF_TYPE:
                 return "a"
             ns, local = _split_iri(t[1])
-            if _pname_ok(local):
+            if ns and _pname_ok(local):
                 return "%s:%s" % (table[ns], local)
             return "<%s>" % t[1]
         if t[0] == "b":
@@ -452,3 +478,50 @@ def to_jsonld(triples):
                 v = {"@value": lex, "@type": dt}
         n.setdefault(p[1], []).append(v)
     return json.dumps(list(nodes.values()), indent=1)
+
+
+def gen_aligned_graph(rng, fmt="nt", boundaries=(4096, 8192, 16384, 32768, 65536, 131072), n_classes=5, tail=40):
+    """Statements in *document order* such that, serialised one per line in `fmt` (nt | tsv_spo), a line ends exactly
+    at every byte offset in `boundaries` (typical block / buffer sizes): the layout a chunked reader must survive."""
+    line = (lambda t: triple_nt(t)) if fmt == "nt" else (lambda t: "%s\t%s\t%s\n" % (term_nt(t[0]), term_nt(t[1]), term_nt(t[2])))
+
+    def pad(i, n):
+        return (iri(EX + "n%d" % i), iri(EX + "pad"), lit("x" * n, XSD + "string"))
+    triples = []
+    offset = 0
+    i = 0
+    queue = []
+    bidx = 0
+    pad_base = len(line(pad(999999, 0)).encode())
+
+    def refill(i):
+        n = iri(EX + "n%d" % i)
+        out = [(n, iri(RDF_TYPE), iri(EX + "C%d" % (i % n_classes)))]
+        for p in range(rng.randint(1, 4)):
+            k = rng.choice(["str", "int", "node"])
+            v = lit("v%d" % rng.randrange(1000), XSD + "string") if k == "str" else \
+                lit(str(rng.randrange(1000)), XSD + "integer") if k == "int" else iri(EX + "n%d" % rng.randrange(max(1, i)))
+            out.append((n, iri(EX + "p%d" % p), v))
+        return out
+    while bidx < len(boundaries):
+        B = boundaries[bidx]
+        if not queue:
+            queue = refill(i)
+            i += 1
+        t = queue[0]
+        L = len(line(t).encode())
+        pb = len(line(pad(i, 0)).encode())
+        if offset + L + pb + 1 > B:
+            need = B - offset - pb
+            triples.append(pad(i, need))
+            offset = B
+            bidx += 1
+            continue
+        triples.append(queue.pop(0))
+        offset += L
+    for _ in range(tail):
+        if not queue:
+            queue = refill(i)
+            i += 1
+        triples.append(queue.pop(0))
+    return triples
